@@ -2,7 +2,7 @@
 C03 — numbering of ranges (slurs, tuplets, wedges, dashes) by the exporter, their pairing by number
 in the importer, and the importer's pairing of ties by pitch.
 
-WRITER  partitura/io/exportmusicxml.py `range_number_from_counter` (with fixes/C03-4: the smallest number
+WRITER  partitura/io/exportmusicxml.py `range_number_from_counter`, `range_numbers_at_note` (with fixes/C03-4..7: the smallest number
         no open range of the same label uses; tuplets use the same function; the dashes stop uses
         the "dashes" label).  The counter is a dict keyed by (label, object): here an association
         list `(label, range id) ↦ number` in insertion order.  A range is *toggled*: the first time the
@@ -13,7 +13,7 @@ READER  partitura/io/importmusicxml.py `handle_slurs` / `handle_tuplets`: `ongoi
         ("start_slur", number) / ("stop_slur", number); a stop that comes before its start is kept
         under the stop key until the start arrives; within one note the elements are processed
         sorted by number, stop before start for equal numbers (two stable sorts).
-        `_handle_note` tie handling (with fixes/C03-8): `ongoing[("tie", pitch)]` is the list of open
+        `_handle_note` tie handling (with fixes/C03-12): `ongoing[("tie", pitch)]` is the list of open
         tied notes of that pitch; a `<tie type="stop">` continues the one that ends where the note
         starts, else the most recent one.
 
